@@ -4,21 +4,7 @@
    family (sequentially the shard function is unobservable; the order of the list only shows
    in the order of export lines and statistics messages, which the correspondence compares
    as multisets).  Concurrency is the subject of Model/UdpConcurrent.v (C04). *)
-From Aquatic Require Export PeerMap AccessList.
-
-Definition tmap := list (N * pmap).
-
-Definition tm_find (h : N) (tm : tmap) : option pmap :=
-  option_map snd (find (fun e => N.eqb (fst e) h) tm).
-
-Definition tm_get (h : N) (tm : tmap) : pmap :=
-  match tm_find h tm with Some pm => pm | None => Small [] end.
-
-Fixpoint tm_set (h : N) (pm : pmap) (tm : tmap) : tmap :=
-  match tm with
-  | [] => [(h, pm)]
-  | (h', pm') :: t => if N.eqb h' h then (h', pm) :: t else (h', pm') :: tm_set h pm t
-  end.
+From Aquatic Require Export PeerMap AccessList TorrentMap.
 
 Record ustate := mkU { u4 : tmap; u6 : tmap }.
 Definition uinit : ustate := mkU [] [].
